@@ -1,1 +1,24 @@
-fn main() {}
+//! procsim — multi-process deterministic simulator for the veryl CLI.
+//! `procsim <ID> [quick|thorough]`, `procsim <ID> --replay <file>`.
+
+mod c04;
+mod hist;
+mod report;
+mod world;
+
+fn main() {
+    let args: Vec<String> = std::env::args().collect();
+    let id = args.get(1).cloned().unwrap_or_default();
+    let mode = args.get(2).cloned().unwrap_or_else(|| "quick".into());
+    let code = match (id.as_str(), mode.as_str()) {
+        ("validate-shapes", _) => c04::validate_shapes(),
+        ("C04", "--replay") => c04::replay(&args[3]),
+        ("C04", tier) => c04::check(tier),
+        _ => {
+            eprintln!("usage: procsim <C04|C05|C24|C27|C30|C32|C34> [quick|thorough|--replay <file>]");
+            2
+        }
+    };
+    simcore::fsutil::cleanup_scratch_root();
+    std::process::exit(code);
+}
